@@ -7,6 +7,8 @@ import time
 from . import mir
 
 VERIF = mir.VERIF
+# developer tools (selftest/par_run.py) redirect the evidence of scratch runs; registered checks always write /verif/evidence
+EVID_DIR = os.environ.get("VERIF_EVIDENCE_DIR") or os.path.join(VERIF, "evidence")
 KNOWN = os.path.join(VERIF, "known_findings.json")
 
 
@@ -98,8 +100,8 @@ class Report:
                 new.append(v)
         n_ob = len(self.obls)
         n_ok = sum(1 for o in self.obls if o["ok"])
-        os.makedirs(os.path.join(VERIF, "evidence"), exist_ok=True)
-        replay_dir = os.path.join(VERIF, "evidence", "replay")
+        os.makedirs(EVID_DIR, exist_ok=True)
+        replay_dir = os.path.join(EVID_DIR, "replay")
         # samples: a few obligations per rule
         samples = []
         per_rule = {}
@@ -143,7 +145,7 @@ class Report:
             "wall_s": round(time.time() - self.t0, 3),
             "violations": len(new),
         }
-        with open(os.path.join(VERIF, "evidence", "%s.json" % self.pid), "w") as fh:
+        with open(os.path.join(EVID_DIR, "%s.json" % self.pid), "w") as fh:
             json.dump(ev, fh, indent=1)
         print("[%s %s] obligations=%d discharged=%d rules=%d configs=%s wall=%.1fs" % (
             self.pid, self.tier, n_ob, n_ok, len(self.rule_counts), ",".join(self.configs), time.time() - self.t0))
